@@ -190,17 +190,18 @@ def rule_guards(ctx):
     ctx.ob("RETAIN-PRED", "Qualifiers::retain = Vec::retain(|q| f(&q.0, &q.1))", okr, fn=rk, site=fn_site(facts, rk), detail=det[:200])
 
 
-def rule_typevalid(ctx):
+def rule_typevalid(ctx, rule="TYPE-VALID", alphabet=True):
     facts = ctx.facts()
     # built-in string shapes: finish refuses !valid_type and lower-cases (details in C13); PackageType names valid (C15)
     from . import C13
-    C13.sibling_obligations(ctx, facts, rule="TYPE-VALID")
-    # .. and what they validate with is the alphabet the property names ("made only of letters, digits, '.', '+' and '-'")
-    from .common import type_alphabet_obligation
-    type_alphabet_obligation(ctx, facts, "TYPE-VALID")
+    C13.sibling_obligations(ctx, facts, rule=rule)
+    if alphabet:
+        # .. and what they validate with is the alphabet the property names ("made only of letters, digits, '.', '+', '-'")
+        from .common import type_alphabet_obligation
+        type_alphabet_obligation(ctx, facts, rule)
     if "package_type::PackageType::name" in facts.bodies:
         from . import C15
-        C15.name_table_obligations(ctx, facts, rule="TYPE-VALID")
+        C15.name_table_obligations(ctx, facts, rule=rule)
 
 
 def rule_qminv(ctx):
